@@ -21,6 +21,7 @@ const (
 	metaSeqLength   = 6
 	setDirectiveLen = 4
 	maxIncludeDepth = 32
+	maxIncludes     = 1000
 )
 
 // Parser is a inputrc parser.
@@ -33,7 +34,8 @@ type Parser struct {
 	mode      string
 	keymap    string
 	line      int
-	depth     int // $include nesting level of the data being parsed
+	depth     int  // $include nesting level of the data being parsed
+	included  *int // number of files included so far by the whole parse
 	conds     []bool
 	errs      []error
 }
@@ -80,7 +82,7 @@ func (p *Parser) Parse(stream io.Reader, handler Handler) error {
 			p.errs = append(p.errs, err)
 			// Too deep an inclusion ends every level: carrying on with the
 			// next line would re-include from each of them in turn.
-			if p.haltOnErr || errors.Is(err, ErrIncludeTooDeep) {
+			if p.haltOnErr || errors.Is(err, ErrIncludeTooDeep) || errors.Is(err, ErrTooManyIncludes) {
 				return err
 			}
 		}
@@ -376,6 +378,23 @@ func (p *Parser) do(handler Handler, keyword, val string) error {
 			}
 		}
 
+		// Files including several others each, level after level,
+		// would stop, but not before the work has grown out of hand.
+		if p.included == nil {
+			p.included = new(int)
+		}
+
+		if *p.included >= maxIncludes {
+			return &ParseError{
+				Name: p.name,
+				Line: p.line,
+				Text: keyword + " " + val,
+				Err:  ErrTooManyIncludes,
+			}
+		}
+
+		*p.included++
+
 		path := expandIncludePath(val)
 		buf, err := handler.ReadFile(path)
 
@@ -386,7 +405,7 @@ func (p *Parser) do(handler Handler, keyword, val string) error {
 			return err
 		}
 
-		return Parse(bytes.NewReader(buf), handler, WithName(val), WithApp(p.app), WithTerm(p.term), WithMode(p.mode), withDepth(p.depth+1))
+		return Parse(bytes.NewReader(buf), handler, WithName(val), WithApp(p.app), WithTerm(p.term), WithMode(p.mode), withDepth(p.depth+1), withIncluded(p.included))
 	}
 
 	if !p.conds[len(p.conds)-1] {
@@ -454,6 +473,13 @@ func WithMode(mode string) Option {
 func withDepth(depth int) Option {
 	return func(p *Parser) {
 		p.depth = depth
+	}
+}
+
+// withIncluded is a parser option to share the count of files included by the whole parse.
+func withIncluded(included *int) Option {
+	return func(p *Parser) {
+		p.included = included
 	}
 }
 
